@@ -18,6 +18,7 @@ def check(tree, rep, tier='quick', seed=0):
     R.k11_input_gate(core, rep)
     R.k11f_value_kinds(core, rep)
     R.k11g_parser_objects_untouched(core, rep)
+    R.k11h_ascii_validators(core, rep)
     R.k17b_validation_on_demand(core, rep)
     R.k2_signal_discipline(core, rep)    # InvalidInput is not converted into 'missing' or anything else on the solve path
     R.k20_ctrl_c(core, rep)
